@@ -361,12 +361,14 @@ pub fn deliver(watcher: usize) {
         if let Some(p) = &paths {
             let s: Vec<String> = p.iter().map(|x| crate::trace::esc_path(x)).collect();
             rt.ev("fs-deliver", &format!("w{} [{}]", watcher, s.join(",")));
+            rt.in_callback = true;
         }
         (paths, h)
     });
     if let (Some(paths), Some(mut h)) = (paths, handler) {
         let r = std::panic::catch_unwind(std::panic::AssertUnwindSafe(|| h(paths)));
         crate::rt::with(|rt| {
+            rt.in_callback = false;
             let w = &mut rt.vfs.watchers[watcher];
             match r {
                 Ok(()) => w.handler = Some(h),
